@@ -2,6 +2,7 @@
 package main
 
 import (
+	"os"
 	"fmt"
 	"go/token"
 	"go/types"
@@ -26,7 +27,7 @@ var purePkgs = []string{"fmt", "strings", "strconv", "errors", "time", "math", "
 
 // pure external functions that are also deterministic (modelled as uninterpreted functions of their arguments)
 var deterministicPure = map[string]bool{"hash/maphash.Comparable": true, "(time.Time).IsZero": true, "(time.Time).Equal": true, "(time.Time).Before": true, "(time.Time).After": true,
-	"strings.HasPrefix": true, "strings.Contains": true, "strings.HasSuffix": true}
+	"strings.HasPrefix": true, "strings.Contains": true, "strings.HasSuffix": true, "strings.TrimSpace": true, "strings.EqualFold": true, "strings.ToLower": true, "strings.ToUpper": true}
 
 func isPurePkg(path string) bool {
 	for _, p := range purePkgs {
@@ -104,20 +105,52 @@ func (e *Exec) call(s *State, res ssa.Value, cc *ssa.CallCommon, site ssa.Instru
 	return e.callVal(s, cc, args, setRes, rest)
 }
 
+// the name a call is logged under (ncalls / icalls / lastresult / callseq match on substrings of it)
+func callLogName(cc *ssa.CallCommon) string {
+	if cc.IsInvoke() {
+		return cc.Method.FullName()
+	} else if sc := cc.StaticCallee(); sc != nil {
+		return sc.String()
+	} else if u, ok := cc.Value.(*ssa.UnOp); ok {
+		// a call through a function-typed local or parameter: logged under the variable's name
+		if al, ok := u.X.(*ssa.Alloc); ok && al.Comment != "" {
+			return "dyncall " + al.Comment
+		}
+	} else if p, ok := cc.Value.(*ssa.Parameter); ok {
+		return "dyncall " + p.Name()
+	}
+	return ""
+}
+
 func (e *Exec) callVal(s *State, cc *ssa.CallCommon, args []Val, setRes func(*State, Val), rest func(*State)) bool {
 	if len(e.frames) == 0 {
 		// call log of the function under verification (its own call sites only)
-		if cc.IsInvoke() {
-			s.calls = append(s.calls, cc.Method.FullName())
-		} else if sc := cc.StaticCallee(); sc != nil {
-			s.calls = append(s.calls, sc.String())
-		} else if u, ok := cc.Value.(*ssa.UnOp); ok {
-			// a call through a function-typed local or parameter: logged under the variable's name
-			if al, ok := u.X.(*ssa.Alloc); ok && al.Comment != "" {
-				s.calls = append(s.calls, "dyncall "+al.Comment)
+		if nm := callLogName(cc); nm != "" {
+			s.calls = append(s.calls, nm)
+			s.callRes = append(s.callRes, callResult{})
+			idx := len(s.calls) - 1
+			inner := setRes
+			lrt := resultType(cc.Signature())
+			setRes = func(st *State, v Val) {
+				if idx < len(st.callRes) && st.calls[idx] == nm {
+					st.callRes[idx] = callResult{V: v, T: lrt}
+				}
+				inner(st, v)
 			}
-		} else if p, ok := cc.Value.(*ssa.Parameter); ok {
-			s.calls = append(s.calls, "dyncall "+p.Name())
+		}
+	}
+	if len(e.frames) == 0 && e.con != nil && len(e.con.PanicsAt) > 0 && len(e.unwinding) == 0 {
+		if nm := callLogName(cc); nm != "" && matchAny(nm, e.con.PanicsAt) {
+			// the extra path on which this call panics instead of returning (what the callee did to the heap before it
+			// panicked is unknown: everything it could reach is havocked like for an unknown call)
+			ps := s.clone()
+			for _, a := range args {
+				e.escape(ps, a)
+			}
+			e.havocAll(ps)
+			ps.panicking = true
+			ps.trace = append(ps.trace, "panic@"+nm)
+			e.unwind(ps)
 		}
 	}
 	sig := cc.Signature()
@@ -366,6 +399,9 @@ func (e *Exec) callResolved(s *State, cc *ssa.CallCommon, callee *ssa.Function, 
 			e.abort("inline depth exceeded at %s", name)
 		}
 		e.note("inlined", name)
+		if os.Getenv("GOVC_TRACE") != "" {
+			fmt.Fprintln(os.Stderr, "inline", name)
+		}
 		if closure != nil {
 			for i, fv := range callee.FreeVars {
 				s.regs[fv] = closure.Bindings[i]
@@ -502,6 +538,14 @@ func (e *Exec) builtin(s *State, b *ssa.Builtin, cc *ssa.CallCommon, args []Val,
 		setRes(s, args[0])
 		return false
 	case "recover":
+		if s.panicking && len(e.unwinding) > 0 {
+			// stops the panic and yields its (non-nil, otherwise unknown) value
+			s.panicking = false
+			pv := e.symbolic(s, types.NewInterfaceType(nil, nil), "recovered").(*Agg)
+			s.assume("(not (= %s 0))", pv.F[0].(Scalar).T)
+			setRes(s, pv)
+			return false
+		}
 		setRes(s, zero(types.NewInterfaceType(nil, nil)))
 		return false
 	case "print", "println":
@@ -858,14 +902,32 @@ func (e *Exec) havocModSet(s, pre *State, m *modSet) {
 
 func (e *Exec) contractEnv(con *Contract, cur, old *State, args []Val) *SpecEnv {
 	env := &SpecEnv{e: e, cur: cur, old: old, vars: map[string]TV{}, pkg: con.Pkg, bound: map[string]bool{}, foreign: true}
+	if con.Fn != nil {
+		env.calleeFn = con.Fn
+	}
+	// a generic callee applied at an instantiated call site: receiver and parameters have the call site's types (so that
+	// field reads go to the same heap families the instantiated caller uses)
+	ptypes := con.ParamTypes
+	if cs := e.curCallSig; cs != nil && con.Sig != nil && (con.Sig.TypeParams().Len() > 0 || con.Sig.RecvTypeParams().Len() > 0) {
+		var ct []types.Type
+		if cs.Recv() != nil {
+			ct = append(ct, cs.Recv().Type())
+		}
+		for i := 0; i < cs.Params().Len(); i++ {
+			ct = append(ct, cs.Params().At(i).Type())
+		}
+		if len(ct) == len(con.ParamTypes) {
+			ptypes = ct
+		}
+	}
 	for i, n := range con.Params {
 		if i < len(args) {
-			env.vars[n] = TV{args[i], con.ParamTypes[i]}
+			env.vars[n] = TV{args[i], ptypes[i]}
 		}
 	}
 	for alias, j := range con.ParamAliases {
 		if j < len(args) {
-			env.vars[alias] = TV{args[j], con.ParamTypes[j]}
+			env.vars[alias] = TV{args[j], ptypes[j]}
 		}
 	}
 	if con.IfaceRecvName != "" && len(args) > 0 && len(con.ParamTypes) > 0 {
@@ -1065,7 +1127,10 @@ func (e *Exec) assertAts(s *State, callee string, args []Val, cc *ssa.CallCommon
 			e.prove("assert-at", fmt.Sprintf("%d", aa.Clause.Ord), aa.Clause.Tags, s, aa.Clause.Expr, env, "assert-at call "+aa.Callee+": "+aa.Clause.Src+" at "+e.posStr(token.NoPos))
 		}
 		// proved (or reported) above: from here on it is a stepping stone for later obligations
-		g, facts := e.evalClause(aa.Clause.Expr, env)
+		g, facts := e.evalClauseOrFalse(aa.Clause.Expr, env)
+		if g == "false" && !aa.Assume {
+			continue // not evaluable: reported above, nothing to assume
+		}
 		s.pc = append(s.pc, facts...)
 		s.assume("%s", g)
 	}
@@ -1140,10 +1205,28 @@ func splitGoal(x SExpr) []SExpr {
 }
 
 // prove: emit the obligations for one clause in state s
+// A clause that refers to a call the function under verification no longer makes (lastresult / callseq of a removed call)
+// cannot be evaluated; it is reported as a FAILED obligation of that clause (goal false) rather than as an engine error.
+type noSuchCall struct{ msg string }
+
+func (e *Exec) evalClauseOrFalse(p SExpr, env *SpecEnv) (g string, facts []string) {
+	defer func() {
+		if r := recover(); r != nil {
+			if nc, ok := r.(noSuchCall); ok {
+				e.note("clause-not-evaluable", nc.msg)
+				g, facts = "false", nil
+				return
+			}
+			panic(r)
+		}
+	}()
+	return e.evalClause(p, env)
+}
+
 func (e *Exec) prove(kind, ord string, tags []string, s *State, x SExpr, env *SpecEnv, desc string) {
 	parts := splitGoal(x)
 	for i, p := range parts {
-		g, facts := e.evalClause(p, env)
+		g, facts := e.evalClauseOrFalse(p, env)
 		st := s
 		if len(facts) > 0 {
 			st = s.clone()
